@@ -31,6 +31,7 @@ struct snode {
   int n;                 /* container kinds: number of entries */
   int* items;            /* target node per entry */
   int64_t* keys;         /* map kinds: Int key value, or key node index for Ref-keyed maps */
+  int wide;              /* Tree<Int,...> only: values are Pair2 {target, target} (wider than the key) instead of Ref */
   int seen;              /* BFS mark */
   int nin;               /* object slots that point at this node, including slots of forgotten (garbage) holders */
 };
@@ -261,8 +262,27 @@ static int use_paddr;
 ** types; or obtained by copy of such an empty container.  Whatever a container remembers about its first element type
 ** must not survive the assignment: from then on it holds references. */
 static long born_counter;
+/* every other Tree keyed by Int holds its references in a plain two-word struct (both words refer to the target):
+   a value wider than the key, traced conservatively, moved as a whole when the Tree rearranges its nodes */
+struct Pair2 { var a; var b; };
+static var Pair2 = Cello(Pair2);
+static int last_container_wide;
+#define PAIR2(p) $(Pair2, (p), (p))
 static var new_container(int kind, int how) {
   static var tmpl[NK_COUNT];
+  last_container_wide = 0;
+  if (kind == NK_TREE_INT_REF && born_counter % 2 == 1) {
+    static var wide_tmpl;
+    last_container_wide = 1;
+    vh_count("trees_with_values_wider_than_their_keys");
+    if (how == 0) { return new_with(Tree, tuple(Int, Pair2)); }
+    if (wide_tmpl == NULL) { wide_tmpl = new_raw_with(Tree, tuple(Int, Pair2)); }
+    if (how == 2) { return copy(wide_tmpl); }
+    var q = new_with(Tree, tuple(Int, Int));
+    for (int i = 0; i < (int)(born_counter % 5); i++) { set(q, $I(i), $I(i)); }
+    assign(q, wide_tmpl);
+    return q;
+  }
   var T = (kind == NK_ARR_REF || kind == NK_ARR_EMB) ? Array : kind == NK_LIST_REF ? List : (kind == NK_TAB_INT_REF || kind == NK_TAB_REF_REF) ? Table : Tree;
   var K1 = (kind == NK_TAB_REF_REF || kind == NK_TREE_REF_REF) ? Ref : Int;
   var E = kind == NK_ARR_EMB ? PEmb : Ref;
@@ -311,6 +331,7 @@ static int alloc_node(int kind, int as_root) {
   rs_add(p, as_root, (int)id);
   int n = new_snode(kind, p, id);
   N[n].is_root = as_root;
+  N[n].wide = (kind == NK_TREE_INT_REF) ? last_container_wide : 0;
   return n;
 }
 
@@ -395,6 +416,11 @@ static void check_node(int n, const char* when) {
       for (int i = 0; i < s->n; i += stride) {
         var key = is_refkey_map(s->kind) ? (var)$R(ptr_of((int)s->keys[i])) : (var)$I(s->keys[i]);
         if (!mem(s->ptr, key)) { vh_violation(K("reachable-container-contents-changed"), "%s node %d lost key %d (%s)", NKNAME[s->kind], n, i, when); break; }
+        if (s->wide) {
+          struct Pair2* v = get(s->ptr, key);
+          if (v->a != ptr_of(s->items[i]) || v->b != ptr_of(s->items[i])) { vh_violation(K("reachable-container-contents-changed"), "%s node %d: the two-word value of key %d changed (%s)", NKNAME[s->kind], n, i, when); break; }
+          continue;
+        }
         if (deref(get(s->ptr, key)) != ptr_of(s->items[i])) { vh_violation(K("reachable-container-contents-changed"), "%s node %d value of key %d changed (%s)", NKNAME[s->kind], n, i, when); break; }
       }
       break;
@@ -525,7 +551,7 @@ static int link_into(vh_rng* r, int h, int target) {
       int64_t key = vh_chance(r, 50) ? (int64_t)vh_below(r, 24) * (5 * 11 * 23 * 53) : vh_range(r, -8, 40);
       int found = -1;
       for (int i = 0; i < s->n; i++) { if (s->keys[i] == key) { found = i; } }
-      set(s->ptr, $I(key), $R(p));
+      if (s->wide) { set(s->ptr, $I(key), PAIR2(p)); } else { set(s->ptr, $I(key), $R(p)); }
       if (found >= 0) { N[s->items[found]].nin--; s->items[found] = target; removed = 1; }
       else { s->keys[s->n] = key; s->items[s->n] = target; s->n++; }
       N[target].nin++;
@@ -1069,7 +1095,32 @@ static void shape_chain(int n, int kind) {
 
 static int long_chains;
 
+/* a registry grown past 65536 slots (70000 roots alive at once), thinned by removing every other entry, emptied:
+** the recorded home slots, probe distances, count and mem agree with the table at each stage */
+static void big_registry(void) {
+  if (!check_c17) { return; }
+  enum { NBIG = 70000 };
+  var* big = malloc(NBIG * sizeof(var));
+  size_t peak = 0, wrong = 0;
+  for (int i = 0; i < NBIG; i++) { big[i] = new_root(Int, $I(i)); rs_add(big[i], 1, 0); }
+  peak = gc->nslots;
+  registry_walk("70000 roots registered");
+  for (int i = 0; i < NBIG; i++) { vh_eval(); if (!mem(gc, big[i])) { wrong++; } }
+  if (wrong) { vh_violation(K("registry:live-root-not-registered"), "%zu of 70000 live roots are missing from a registry of %zu slots", wrong, (size_t)gc->nslots); }
+  for (int i = 0; i < NBIG; i += 2) { del_root(big[i]); rs_dead(big[i]); }
+  registry_walk("every other one of 70000 roots deleted");
+  wrong = 0;
+  for (int i = 1; i < NBIG; i += 2) { vh_eval(); if (!mem(gc, big[i]) || c_int(big[i]) != i) { wrong++; } }
+  if (wrong) { vh_violation(K("registry:live-root-not-registered"), "%zu of 35000 remaining roots are missing from the registry after every other one was deleted", wrong); }
+  for (int i = 1; i < NBIG; i += 2) { del_root(big[i]); rs_dead(big[i]); }
+  registry_walk("all 70000 roots deleted");
+  free(big);
+  if (peak > 65536) { vh_count("registries_grown_beyond_65536_slots"); }
+  rs_reset();
+}
+
 static void fixed(void) {
+  big_registry();
   shape_ring(3, NK_PNODE); shape_ring(50, NK_PMARK); shape_ring(1, NK_TUPLE); shape_ring(2, NK_TUPLE); shape_ring(40, NK_TUPLE);
   shape_ring(10, NK_REF);
   shape_complete(2); shape_complete(5); shape_complete(12);
